@@ -230,12 +230,40 @@ def coq_make(timeout=1700):
     with open(lockf, "w") as lf:
         fcntl.flock(lf, fcntl.LOCK_EX)
         try:
-            p = subprocess.run(["make", "-C", VERIF, "coq", "-j%d" % NCPU], capture_output=True, text=True, timeout=timeout)
+            p = subprocess.run(["make", "-k", "-C", VERIF, "coq", "-j%d" % NCPU], capture_output=True, text=True, timeout=timeout)
             return p.returncode == 0, (p.stdout + p.stderr)[-6000:]
         except subprocess.TimeoutExpired:
             return False, "coq build timed out"
         finally:
             fcntl.flock(lf, fcntl.LOCK_UN)
+
+
+def coq_closure(vfile, seen=None):
+    """.v files of this development that vfile depends on (transitively), via its Require lines."""
+    seen = set() if seen is None else seen
+    if vfile in seen or not os.path.exists(vfile):
+        return seen
+    seen.add(vfile)
+    txt = re.sub(r"\(\*.*?\*\)", "", open(vfile).read(), flags=re.S)
+    for m in re.finditer(r"(?:From\s+DDP\s+)?Require\s+(?:Import\s+|Export\s+)?([^.]*(?:\.[A-Za-z_][^.]*)*)\.\s", txt):
+        for name in m.group(1).split():
+            name = name.strip()
+            if name.startswith("DDP."):
+                name = name[4:]
+            cand = os.path.join(COQ, *name.split(".")) + ".v"
+            if os.path.exists(cand):
+                coq_closure(cand, seen)
+    return seen
+
+
+def coq_stale(vfile):
+    """files in the closure of vfile whose .vo is missing or older than the source"""
+    bad = []
+    for f in coq_closure(vfile):
+        vo = f[:-2] + ".vo"
+        if not os.path.exists(vo) or os.path.getmtime(vo) < os.path.getmtime(f):
+            bad.append(os.path.relpath(f, COQ))
+    return bad
 
 
 def props_audit(pid):
@@ -264,16 +292,16 @@ def props_audit(pid):
     return dict(ok=ok, theorems=thms, axioms=sorted(set(axioms)), closed=closed, foreign=foreign, bad=bad, log=out[-3000:])
 
 
-def grep_gate():
-    """No Admitted/admit/Axiom/Parameter/… anywhere in the development."""
+def grep_gate(files=None):
+    """No Admitted/admit/Axiom/Parameter/… in the given files (default: the whole development)."""
     hits = []
     pat = re.compile(r"\b(Admitted|admit|Axiom|Axioms|Parameter|Parameters|Conjecture|Unset Guard Checking|bypass_check|Admit Obligations|type-in-type|impredicative-set)\b")
-    for d, _, fs in os.walk(COQ):
-        for f in fs:
-            if f.endswith(".v"):
-                txt = re.sub(r"\(\*.*?\*\)", "", open(os.path.join(d, f)).read(), flags=re.S)
-                for m in pat.finditer(txt):
-                    hits.append("%s: %s" % (os.path.relpath(os.path.join(d, f), COQ), m.group(1)))
+    if files is None:
+        files = [os.path.join(d, f) for d, _, fs in os.walk(COQ) for f in fs if f.endswith(".v")]
+    for f in files:
+        txt = re.sub(r"\(\*.*?\*\)", "", open(f).read(), flags=re.S)
+        for m in pat.finditer(txt):
+            hits.append("%s: %s" % (os.path.relpath(f, COQ), m.group(1)))
     return hits
 
 
@@ -359,10 +387,13 @@ class Check:
     # -- Coq part common to every check
     def coq(self, extra_files=()):
         ok, lg = coq_make()
-        if not ok:
+        stale = coq_stale(os.path.join(COQ, "Props", self.pid + ".v"))
+        if stale:
             self.cov["coq_build"] = "FAILED"
-            self.broken_obligation("coq build failed", lg)
+            self.broken_obligation("coq build failed for files Props/%s.v depends on: %s" % (self.pid, stale), lg)
             return False
+        if not ok:
+            log("[coq] note: the development has build failures outside the dependency closure of Props/%s.v" % self.pid)
         a = props_audit(self.pid)
         self.cov["obligations"] = len(a["theorems"])
         self.cov["discharged"] = len(a["theorems"]) if a["ok"] else 0
@@ -372,7 +403,7 @@ class Check:
         if not a["ok"]:
             self.broken_obligation("Props/%s.v does not check or depends on a foreign axiom %s %s" % (self.pid, a["foreign"], a["bad"]), a["log"])
             return False
-        gate = grep_gate()
+        gate = grep_gate(sorted(coq_closure(os.path.join(COQ, "Props", self.pid + ".v"))))
         if gate:
             self.broken_obligation("grep gate: " + "; ".join(gate[:5]), "")
             return False
